@@ -63,6 +63,14 @@ Proof.
   destruct ((a =? 27) && (c =? 92)); [inversion H; subst; reflexivity|apply IH, H].
 Qed.
 
+Lemma scan_str_mono inp more : forall prev r,
+  scan_str inp prev = Some r -> scan_str (inp ++ more) prev = Some (r ++ more).
+Proof.
+  induction inp as [|c inp IH]; intros prev r H; cbn [scan_str app] in *; [discriminate|].
+  destruct ((c =? 7) || (c =? 156)); [inversion H; subst; reflexivity|].
+  destruct ((prev =? 27) && (c =? 92)); [inversion H; subst; reflexivity|apply IH, H].
+Qed.
+
 Lemma parse_osc_mono inp more k rest :
   parse_osc inp = PTok k rest -> parse_osc (inp ++ more) = PTok k (rest ++ more).
 Proof.
@@ -73,7 +81,9 @@ Proof.
   - destruct (scan_osc_payload r []) as [[p r']|] eqn:E2; [|discriminate].
     rewrite (scan_osc_payload_mono _ more _ _ E2). cbn [fst snd].
     intros H; inversion H; subst. reflexivity.
-  - destruct (_ || _); intros H; inversion H; subst; reflexivity.
+  - destruct (_ || _); [intros H; inversion H; subst; reflexivity|].
+    destruct (scan_str r b) as [r'|] eqn:E3; [|discriminate].
+    rewrite (scan_str_mono _ more _ _ E3). intros H; inversion H; subst. reflexivity.
 Qed.
 
 (* ---- DCS, ESC ---- *)
